@@ -138,13 +138,25 @@ def run(chk):
             t = cM.type(f"o{j}")
             other = {"and": "nand", "nand": "and", "or": "nor", "nor": "or", "xor": "xnor", "xnor": "xor"}[t]
             cases.append((f"{n_out}-endpoints::only o{j} differs", cM, retyped(cM, f"o{j}", other), None, None))
+    # same-named constant cells of different value (not themselves endpoints): the difference they cause must be seen
+    cK0 = build({"a": ("input", []), "b": ("input", []), "k": ("0", []), "g": ("or", ["a", "k"]), "o": ("xor", ["g", "b"])}, outputs=["o"])
+    cases.append(("same-named tie cell of different value", cK0, retyped(cK0, "k", "1"), None, None))
+    cases.append(("same-named tie cell of equal value", cK0, cK0.copy(), None, None))
+    # an output of one circuit whose name survives in the other only as an internal net (with another function): not a common endpoint
+    cW0 = build({"a": ("input", []), "b": ("input", []), "w": ("and", ["a", "b"]), "o": ("not", ["w"])}, outputs=["o", "w"])
+    cW1 = build({"a": ("input", []), "b": ("input", []), "w": ("or", ["a", "b"]), "v": ("and", ["a", "b"]), "o": ("not", ["v"])}, outputs=["o"])
+    cases.append(("output of one is an internal net of the other::restructured second", cW0, cW1, None, None))
+    cases.append(("output of one is an internal net of the other::restructured first", cW1, cW0, None, None))
     # self-miters (c1 omitted) of circuits whose own node names contain the copy prefixes
     cS = build({"c0_n": ("input", []), "c1_n": ("input", []), "xc0_y": ("and", ["c0_n", "c1_n"]), "c1_c0_z": ("xor", ["xc0_y", "c0_n"])}, outputs=["c1_c0_z", "xc0_y"])
     cases.append(("self-miter::names containing c0_ / c1_", cS, None, None, None))
     cases.append(("self-miter::names containing c0_ / c1_::one tied startpoint", cS, None, {"c0_n"}, None))
     cases.append(("self-miter::plain", cH, None, None, None))
-    for name, c0, c1, sps, eps in cases:
-        r = P.call(FILE, "miter", c0, c1, sps, eps)
+    from ..pkgenv import FullStackCaller
+
+    FS = FullStackCaller(repo)
+    for name, c0, c1, sps, eps, caller in [(*cs, P) for cs in cases] + [(cs[0] + "@full-stack", *cs[1:], FS) for cs in cases]:
+        r = caller.call(FILE, "miter", c0, c1, sps, eps)
         n += 1
         key = f"miter::{name}"
         if r[0] != "return" or not isinstance(r[1], RefCircuit):
